@@ -71,7 +71,13 @@ def r_C23(root):
                             for h in a.handlers:
                                 if any(isinstance(r, ast.Raise) and isinstance(r.exc, ast.Call) and callee_name(r.exc) in TEXTX_ERRORS for r in ast.walk(h)): prot = True
                         if isinstance(a, (ast.FunctionDef,)): break
-                    guarded = cn == "compile" and any(any(k in ast.unparse(g).replace(" ", "") for k in ("span()==(0,len(", "end()==len(", "fullmatch(", "group()==")) for g, pol in guards(n) if pol)
+                    guarded = False
+                    if cn == "compile":
+                        try:
+                            dq = qualname(d); di = find_i(root, rel, dq); fdi = sem.info(di)
+                            comps = [x for x in calls(di, own=True) if callee_name(x) == "compile" and ast.unparse(x) == ast.unparse(n)]
+                            guarded = bool(comps) and all(any(pol and any(k in a_.replace(" ", "") for k in ("span()==(0,len(", "end()==len(", "fullmatch(", "group()==")) for a_, pol in fdi.atoms_at(x)) for x in comps)
+                        except AnalysisError: guarded = False
                     regex_safe = cn == "int" and d.name == "visit_integer"     # argument matched by [-+]?[0-9]+
                     module_level = False
                     if not (prot or guarded or regex_safe):
@@ -91,7 +97,7 @@ def r_C23(root):
                 if isinstance(x, ast.Subscript) and isinstance(x.ctx, ast.Load) and ast.unparse(x.value) in ("metamodel", "self.metamodel", "model_parser.metamodel"):
                     inst += 1
                     key = ast.unparse(x.slice)
-                    g = [ast.unparse(t).replace(" ", "") for t, pol in guards(x) if pol]
+                    g = [a_.replace(" ", "") for a_, pol in sem.info(d).atoms_at(x) if pol]
                     tried = any(isinstance(a, ast.Try) and any(h.type is not None and "KeyError" in ast.unparse(h.type) for h in a.handlers) for a in ancestors(x))
                     membership = any(("%sin" % key.replace(" ", "")) in t and "metamodel" in t for t in g)
                     known = (d.name, key) in {("visit_textx_rule", "rule_name"): 1, ("_determine_rule_type", "rule.rule_name"): 1, ("_resolve_rule", "rule_name"): 1}
@@ -376,9 +382,21 @@ def r_C17ad_C22b(root):
         if isinstance(s, ast.Assign) and ast.unparse(s.targets[0]) == "myfilename" and "_tx_filename" in ast.unparse(s.value) and "abspath" not in ast.unparse(s.value):
             out.append(Finding("C17", "C17.d", S, "update_model_in_repo_based_on_filename", ast.unparse(s), "file key stored without abspath normalisation"))
     # C22.b comment wiring
-    vm = find(load(root, L), "TextXVisitor.visit_textx_model"); inst += 1
-    src = ast.unparse(vm)
-    if not ("'Comment' in self.metamodel" in src and "self.metamodel['Comment']._tx_peg_rule" in src and "get_model_parser(root_rule, comments_model" in src.replace("\n", "")):
+    vm = find_i(root, L, "TextXVisitor.visit_textx_model"); inst += 1
+    fvm = sem.info(vm)
+    gmp = next((c for c in calls(vm) if callee_name(c) == "get_model_parser"), None)
+    okcm = False
+    if gmp is not None and len(gmp.args) >= 2 and isinstance(gmp.args[1], ast.Name):
+        n_ = fvm.node_of(gmp); ds = fvm.rd.defs_of(n_, gmp.args[1].id)
+        vals = []
+        for d_ in ds:
+            a_ = fvm.cfg.nodes[d_].ast
+            if isinstance(a_, ast.Assign): vals.append((ast.unparse(fvm.expand(a_.value, at=a_)).replace(" ", ""), [(x.replace(" ", ""), p) for x, p in fvm.atoms_at(a_)]))
+        has_rule = any(v == "self.metamodel['Comment']._tx_peg_rule" and ("'Comment'inself.metamodel", True) in at for v, at in vals)
+        has_none = any(v == "None" for v, at in vals)
+        okcm = has_rule and (has_none or len(vals) == 1)
+        if not okcm and len(vals) == 1 and vals[0][0] == "self.metamodel['Comment']._tx_peg_ruleif'Comment'inself.metamodelelseNone": okcm = True
+    if not okcm:
         out.append(Finding("C22", "C22.b", L, "TextXVisitor.visit_textx_model", "comments_model", "the grammar's Comment rule is not wired as the parser's comment model"))
     return inst, out
 ALL = [r_C23, r_C03bc, r_C02ab, r_C19a_C01, r_C17ad_C22b]
